@@ -2,6 +2,7 @@ CONSTANTS
   MaxRows = 5
   MaxDepth = 6
   InitRowsA = {2, 3, 4}
+  WithEmptyB = FALSE
 SPECIFICATION Spec
 INVARIANT EmitProgram
 CHECK_DEADLOCK FALSE
